@@ -229,6 +229,8 @@ class Algebra:
             return True
         if t[0] == 'call' and t[1] in self.identity_calls:
             return True
+        if t[0] == 'call' and CALL_ALIASES.get(t[1], t[1]) == 'numpy.abs' and len(t[2]) == 1 and not t[3]:
+            return True
         if t[0] == 'meth' and (t[1] in ('sum', 'mean') or t[1] in IDENTITY_METHODS):
             return True
         return False
@@ -322,6 +324,14 @@ class Algebra:
                     and not t[3]:
                 op = {'numpy.add': '+', 'numpy.subtract': '-', 'numpy.multiply': '*', 'numpy.divide': '/'}[name]
                 return self.poly(('bin', op, t[2][0], t[2][1]))
+            if CALL_ALIASES.get(name, name) == 'numpy.abs' and len(t[2]) == 1 and not t[3]:
+                # |p| == |-p| : canonical sign of the argument
+                p = self.poly(t[2][0])
+                if p.m:
+                    first = sorted(p.m.items(), key=lambda kv: (len(kv[0]), str(kv[0])))[0]
+                    if first[1] < 0:
+                        p = -p
+                return Poly.atom('numpy.abs(P{%s})' % p)
             if name == 'numpy.negative' and len(t[2]) == 1:
                 return -self.poly(t[2][0])
             if name == 'numpy.square' and len(t[2]) == 1:
